@@ -5,12 +5,11 @@
    The trace spec keeps only the PROPERTY-LAYER history h (FsmRfc.tla: computed from the inputs
    and from which connections the speaker closed) and judges every step with the C07_* invariants.
    Strict cfg FsmTrace.cfg lists C07_*, FsmKF.cfg lists the *_KF weakenings (known findings). *)
-EXTENDS FsmRfc, TraceUtil
+EXTENDS FsmMech, TraceUtil
 
-VARIABLES l, h, ph, pe, po
-tvars == <<l, h, ph, pe, po>>
+VARIABLES l, h, ph, pe, po, mm
+tvars == <<l, h, ph, pe, po, mm>>
 
-NoEv == [ev |-> "Reset", c |-> "", kind |-> "", hold |-> 0, d |-> 0, n |-> 0, code |-> 0, sub |-> 0, comm |-> ""]
 EvOf(r) == [ev |-> r.ev, c |-> r.c, kind |-> r.kind, hold |-> r.hold, d |-> r.d, n |-> r.n,
             code |-> r.code, sub |-> r.sub, comm |-> r.comm]
 NoConnObs == [known |-> FALSE, closed |-> FALSE, pend |-> 0, msgs |-> <<>>]
@@ -20,6 +19,7 @@ NoObs == [t |-> 0, ms |-> 0, st |-> "Active", admin |-> "Up", wev |-> <<>>, dial
 NoCfg == [passive |-> TRUE, hold |-> 9, peer |-> "lo", maxpfx |-> 0, nbit |-> FALSE, retry |-> 4]
 
 TraceInit == /\ l = 1 /\ h = HInit(NoCfg, NoObs) /\ ph = HInit(NoCfg, NoObs) /\ pe = NoEv /\ po = NoObs
+             /\ mm = Finish(MInit(NoCfg))
 
 IsLine == l <= TLen /\ l' = l + 1
 
@@ -29,21 +29,25 @@ TReset == /\ IsLine /\ Trace[l].ev = "Reset"
                /\ ph' = HInit(Trace[l].cfg, o)
                /\ pe' = NoEv
                /\ po' = o
+               /\ mm' = Finish(MInit(Trace[l].cfg))
 
-(* a step the harness could not carry out, a message the speaker never read (outside the
-   suspended two-connection situation) or a non-integral instant is a conformance gap *)
-Consumable(r) == /\ r.obs.done
-                 /\ (h.susp \/ (r.obs.ci.pend = 0 /\ r.obs.co.pend = 0))
+(* a message the speaker never read (outside the suspended two-connection situation) is a
+   conformance gap *)
+Consumable(r) == h.susp \/ (r.obs.ci.pend = 0 /\ r.obs.co.pend = 0)
+(* an event the harness could not carry out (no dial pending, no such connection, API error) was
+   never delivered to the speaker: it is judged as "nothing was done" *)
+Noop == [NoEv EXCEPT !.ev = "Noop"]
 
 TStep == /\ IsLine /\ Trace[l].ev # "Reset"
          /\ Consumable(Trace[l])
-         /\ LET e == EvOf(Trace[l])
+         /\ LET e == IF Trace[l].obs.done THEN EvOf(Trace[l]) ELSE Noop
                 o == Trace[l].obs
             IN /\ h' = HNext(h, e, o)
                /\ ph' = h
                /\ pe' = e
                /\ po' = o
-               /\ NoteIf(TRUE, <<h.cfg, h.st, Top(h), e.ev, e.c, e.kind, StepClass(h, e, o)>>)
+               /\ mm' = MStep(mm, e)          \* the mechanism model runs alongside (Conf_* only)
+               /\ NoteIf(e.ev # "Noop", <<h.cfg, h.st, Top(h), e.ev, e.c, e.kind, StepClass(h, e, o)>>)
 
 TraceNext == TReset \/ TStep
 TraceSpec == TraceInit /\ [][TraceNext]_tvars
@@ -92,4 +96,15 @@ C07_NoRibEffectBeforeEstablished_KF == J => (S \/ P_NoRibEffectBeforeEstablished
 (* KF-C07-collision, second face: the FSM goroutine adopts the outgoing connection but blocks in
    the OpenSent handler's deferred wait on the incoming one, still reporting OpenSent *)
 C07_ReportedMatchesReal_KF == J => (S \/ h.susp \/ Dev_DownButOutgoing(ph, pe, po, h))
+
+(* ---- informational: the real code follows the MECHANISM model (FsmMech.tla) exactly ---------- *)
+ConfConn(a, b) == /\ a.known = b.known /\ a.closed = b.closed
+                  /\ NotifPairs(a.msgs) = NotifPairs(b.msgs)
+                  /\ Count(a.msgs, "OPEN") = Count(b.msgs, "OPEN")
+                  /\ Count(a.msgs, "KEEPALIVE") - Count(b.msgs, "KEEPALIVE") \in {-1, 0, 1}
+Conf_State == J => (mm.o.st = po.st /\ mm.o.admin = po.admin /\ mm.o.t = po.t)
+Conf_Stream == J => [i \in 1..Len(mm.o.wev) |-> mm.o.wev[i].st] = [i \in 1..Len(po.wev) |-> po.wev[i].st]
+Conf_Conns == J => (ConfConn(mm.o.ci, po.ci) /\ ConfConn(mm.o.co, po.co) /\ ConfConn(mm.o.cx, po.cx))
+Conf_Dial == J => mm.o.dial = po.dial
+Conf_Rib == J => (mm.o.ribg = po.ribg /\ mm.o.riba = po.riba)
 =============================================================================
